@@ -12,6 +12,7 @@ import (
 	"net"
 
 	"github.com/emersion/go-imap/v2"
+	"github.com/emersion/go-imap/v2/internal"
 	"github.com/emersion/go-imap/v2/internal/imapwire"
 )
 
@@ -257,11 +258,32 @@ var _ *tls.Config // used by //@ func headers
 var _ io.Writer
 var _ *imapwire.Encoder
 
-// Direct users of Encoder.Quoted must pass a string that may be quoted.
+// searchKeyText: s is one of the strings a SEARCH key of these criteria
+// carries - a date bound formatted as it stands (time.Time.Format with the IMAP
+// date layout: the calendar date in the value's own location, nothing
+// converted first), a header name or value, a BODY / TEXT string, or the
+// MODSEQ metadata name.
+//
+//@ pure
+func searchKeyText(criteria *imap.SearchCriteria, s string) bool {
+	return s == criteria.Since.Format(internal.DateLayout) || s == criteria.Before.Format(internal.DateLayout) ||
+		s == criteria.SentSince.Format(internal.DateLayout) || s == criteria.SentBefore.Format(internal.DateLayout) ||
+		__exists(func(k int) bool {
+			return 0 <= k && k < len(criteria.Header) && (criteria.Header[k].Key == s || criteria.Header[k].Value == s)
+		}) ||
+		__exists(func(k int) bool { return 0 <= k && k < len(criteria.Body) && criteria.Body[k] == s }) ||
+		__exists(func(k int) bool { return 0 <= k && k < len(criteria.Text) && criteria.Text[k] == s }) ||
+		(criteria.ModSeq != nil && s == criteria.ModSeq.MetadataName)
+}
+
+// Direct users of Encoder.Quoted must pass a string that may be quoted. Every
+// string argument of a SEARCH key is taken from the criteria unchanged
+// (searchKeyText).
 //
 //@ func writeSearchKey(enc *imapwire.Encoder, criteria *imap.SearchCriteria)
-//@   props C18:callsite
+//@   props C18:callsite C02:callsite
 //@   callsite Encoder.Quoted(e *imapwire.Encoder, q string) requires imapwire.ValidQuotedSpec(e.QuotedUTF8, q)
+//@   callsite[C02] Encoder.String(e *imapwire.Encoder, s string) requires searchKeyText(criteria, s)
 
 //@ pure
 func isBytesBuffer(r io.Reader) bool {
